@@ -804,7 +804,7 @@ pub fn code_block(input: ParseString) -> ParseResult<SectionElement> {
           },
           Err(err) => {
             return Err(nom::Err::Error(ParseError {
-                cause_range: SourceRange::default(),
+                cause_range: r,
                 remaining_input: input,
                 error_detail: ParseErrorDetail {
                     message: "Generic error parsing Mech code block",
